@@ -1113,6 +1113,26 @@ static Verdict runDet(const Case& c)
          else
          {
             std::string d = firstDiff(oa2, oa3, TWIN_GROUPS, "second", "third");
+            // known finding C17/resolve-numerical-state-persists: adaptive numerical state survives clearBasis() by design
+            // (Markowitz threshold of the LU adapted to the stability of the last factorisation, shift / cycling / instability
+            // counters, ...), so consecutive re-solves may take different pivoting paths. With the key known the two re-solves
+            // are compared in status and optimal value; bitwise differences beyond that are counted
+            if(!d.empty() && knownKey("resolve-numerical-state-persists") && obsGet(oa2, "status.status") == obsGet(oa3, "status.status")
+                  && firstDiff(oa2, oa3, "lp par tol seed", "second", "third").empty())
+            {
+               bool okv = true;
+               if(obsGet(oa2, "status.status") == "OPTIMAL")
+               {
+                  double a = atof(obsGet(oa2, "sol.objValueReal").c_str() + obsGet(oa2, "sol.objValueReal").find('(') + 1);
+                  double b = atof(obsGet(oa3, "sol.objValueReal").c_str() + obsGet(oa3, "sol.objValueReal").find('(') + 1);
+                  okv = std::fabs(a - b) <= 1e-6 * (1 + std::fabs(a) + std::fabs(b));
+               }
+               if(okv)
+               {
+                  e.count("excluded_known.resolve-numerical-state-persists");
+                  d.clear();
+               }
+            }
             if(!d.empty()) v.fail("determinism: third solve after clearBasis() differs from the second solve after clearBasis() in " + d);
          }
       }
@@ -1471,7 +1491,14 @@ static Verdict runCopy(const Case& c)
             std::string dd = firstDiff(oy, ott, strictTwin ? twinGroups : (tolShared ? "lp par seed ratlp" : "lp par tol seed ratlp"), yn, "twin");
             if(dd.empty() && !strictTwin)
             {
-               if(obsGet(oy, "status.status") != obsGet(ott, "status.status")) dd = "status.status: copy = " + obsGet(oy, "status.status") + " | twin = " + obsGet(ott, "status.status");
+               auto verdict = [](const std::string & st)
+               {
+                  return st == "OPTIMAL" || st == "INFEASIBLE" || st == "UNBOUNDED" || st == "INForUNBD";
+               };
+               std::string sy = obsGet(oy, "status.status"), stw = obsGet(ott, "status.status");
+               // an abort / singular / cycling end of one of the two is a completeness matter of that solve (C01/C02)
+               if(sy != stw && !(verdict(sy) && verdict(stw))) e.count("copy.continuation_one_side_without_verdict");
+               else if(sy != stw) dd = "status.status: copy = " + sy + " | twin = " + stw;
                else if(obsGet(oy, "status.status") == "OPTIMAL")
                {
                   double a = (**Y).objValueReal(), b = T->objValueReal();
